@@ -343,7 +343,7 @@ def drive_molobj(rec):
         op, i = ev["op"], ev["obj"]
         e = {"op": op, "obj": i, "R": ev.get("R", [[1, 0, 0], [0, 1, 0], [0, 0, 1]]), "o": ev.get("o", [0, 0, 0]), "v": ev.get("v", [0, 0, 0]),
              "keep": ev.get("keep", []), "exc": "", "off": False, "tg": [], "recv": [], "others": [], "cen": [0, 0, 0], "bmin": [0, 0, 0],
-             "bmax": [0, 0, 0], "d2": [], "formula": "", "tri": 0, "full": True}
+             "bmax": [0, 0, 0], "d2": [], "formula": "", "tri": 0, "full": True, "bonds": [], "frags": []}
         t["events"].append(e)
         if i not in objs:
             break
@@ -353,7 +353,19 @@ def drive_molobj(rec):
             o = tuple(float(x) / GRID for x in ev.get("o", [0, 0, 0]))
             v = np.array(ev.get("v", [0, 0, 0]), dtype=float) / GRID
             tg = i
-            if op == "t":
+            if op == "b":
+                m.guess_bonds()
+                ub = m.unique_bonds or ()
+                e["bonds"] = sorted([int(min(a_, b_)) + 1, int(max(a_, b_)) + 1] for a_, b_, _ in ub)
+                pos_all = np.asarray(m.positions, dtype=float)
+                frs = []
+                for fr in m.connected_fragments():
+                    idx = []
+                    for p_ in np.asarray(fr.positions, dtype=float):
+                        idx.append(int(np.argmin(np.sum((pos_all - p_) ** 2, axis=1))) + 1)
+                    frs.append(sorted(idx))
+                e["frags"] = sorted(frs)
+            elif op == "t":
                 m.translate(v)
             elif op == "r":
                 m.rotate(R, origin=o)
@@ -426,12 +438,17 @@ def molobj_recipes(rng, words, count):
         n = rng.randint(1, 9)
         pts = set()
         while len(pts) < n:
-            pts.add(tuple(rng.randint(-40, 40) for _ in range(3)))
+            if pts and rng.random() < 0.7:
+                # next to an atom already placed, at about a bond length (8-12 units of 1/8 A)
+                b0 = rng.choice(sorted(pts))
+                pts.add(tuple(b0[k] + rng.randint(-9, 9) for k in range(3)))
+            else:
+                pts.add(tuple(rng.randint(-40, 40) for _ in range(3)))
         base = [[rng.choice([1, 1, 6, 6, 7, 8, 9, 16, 17]), list(p)] for p in pts]
         nobj, evs, sizes = 1, [], {1: n}
         for _ in range(rng.randint(1, 8)):
             i = rng.randint(1, nobj)
-            op = rng.choice("trxTRXCM" if nobj < 4 else "trx")
+            op = rng.choice("trxTRXCMbb" if nobj < 4 else "trxb")
             ev = {"op": op, "obj": i}
             if op in "tTxX":
                 ev["v"] = [rng.randint(-16, 16) for _ in range(3)]
